@@ -301,12 +301,15 @@ def matrices(tier, seed_):
     g = run_tlc("MCMatchSem", "MatchSem_grid.cfg" if tier == "quick" else "MatchSem_grid_t.cfg", workers=4, xmx="6g", timeout=1200, name="matchsem-grid")
     if g.rc != 0:
         raise ToolError("MatchSem grid enumeration failed: " + (g.violated or g.error or g.stdout[-1500:]))
-    grid = g.json_prints("MATRIX")
+    # (TLC with several workers prints the states in scheduling order: sorted, so that the sub-sampling below, the positions `#i` in the
+    # identities of the cases and with them `--replay` are the same on every run of one seed)
+    canon = lambda ms: sorted(ms, key=lambda m: json.dumps(m, sort_keys=True))
+    grid = canon(g.json_prints("MATRIX"))
     # the same over scrutinees with a unit column (the unit under a constructor, next to a bool): `()` rows, `_` rows, constructor rows
     gu = run_tlc("MCMatchSem", "MatchSem_unitgrid.cfg", workers=4, xmx="6g", timeout=1200, name="matchsem-unitgrid")
     if gu.rc != 0:
         raise ToolError("MatchSem unit grid enumeration failed: " + (gu.violated or gu.error or gu.stdout[-1500:]))
-    ug = gu.json_prints("MATRIX")
+    ug = canon(gu.json_prints("MATRIX"))
     if len(ug) < 100:
         raise ToolError("MatchSem unit grid enumeration emitted too few matrices")
     if tier == "quick":
